@@ -26,6 +26,7 @@ def dispatch (line : String) : String :=
   | "c03" :: rest => Driver.Dec.handleC03 rest out
   | "c04" :: "f" :: ty :: m :: [] => Driver.C04F.handleC04F ty m out
   | "c04" :: rest => Driver.C04.handleC04 rest out
+  | "c05" :: "lf" :: ty :: calls => Driver.C04F.handleC05LF ty calls out
   | "c05" :: "vf" :: ty :: i :: m :: [] => Driver.C04F.handleC05VF ty i m out
   | "c05" :: rest => Driver.C04.handleC05 rest out
   | "c08" :: rest => Driver.C08.handle rest out
